@@ -9,7 +9,7 @@ CHECKS = {
          "Random editing sessions against the real Cli; dispatch compared with an independent reference tokenisation/classification of the line observed just before Enter, the line itself with an ideal-editor model and a terminal emulator; a coverage-guided campaign (16 libFuzzer processes) searches the same session space with the same oracle; no exhaustive claim (session space is unbounded).", "6/C01"),
  "C02": ("exploration", "exhaustive enumeration of high-byte sequences + random malformed streams through the Cli, validity oracle and differential against std's UTF-8 decoder",
          "Exhaustive for all sequences of up to 3 bytes >= 0x80 (quick) / up to 4 bytes (thorough) at decoder level; sampled for whole-Cli streams.", "6/C02"),
- "C03": ("exploration", "coverage-guided fuzzing (cargo-fuzz/libFuzzer + ASan, 16 processes) + random raw-byte sessions (proptest), invariant oracle inside the target, process isolation for aborts; stack-depth probe on an unoptimised build; thorough adds generated sessions under Miri",
+ "C03": ("exploration", "coverage-guided fuzzing (cargo-fuzz/libFuzzer + ASan, 16 processes) + random raw-byte sessions (proptest), invariant oracle inside the target, process isolation for aborts; the same sessions differentially on a build without the verification hooks; stack-depth probe on an unoptimised build; thorough adds generated sessions under Miri",
          "Panics, aborts, failed unsafe preconditions (debug assertions on), arithmetic overflow (checks on), sanitizer reports and the explicit invariants behind every unchecked operation are searched for over raw byte sessions with all buffer sizes 0..=64; absence is not established.", "6/C03"),
  "C04": ("exploration", "exhaustive concatenation of boundary key units + CSI length / byte-pair / triple sweeps + random streams + coverage-guided fuzzing with a terminal dictionary, all differential against a byte-level reference decoder",
          "Exhaustive to depth 4 (quick) / 5 (thorough) units over 28 boundary units, which exceeds the decoder's memory depth (previous byte + CSI flag + up to 3 pending UTF-8 bytes); every CSI length 0..=600 (thorough 5000) parameter bytes; random beyond.", "6/C04"),
@@ -83,6 +83,8 @@ def main():
              "kind_free_text": "cargo-fuzz targets (libFuzzer + AddressSanitizer, nightly): `session` (raw byte sessions, C03 invariants inside) `lockstep` (key/API sessions with the lock-step semantic oracle of C01/C05/C06/C13/C15 inside, selected by VFUZZ_FLAGS) and `fdiff` (function-level differentials of C04/C07/C08 against their reference models, selected by VFUZZ_MODE, with dictionaries under corpus/dict)"},
             {"name": "miri", "path": "/verif/harness/mirirun", "serves_properties": ["C03"],
              "kind_free_text": "generated sessions interpreted by Miri (thorough tier of C03): aliasing, uninitialised reads, dangling/misaligned accesses in the library's unsafe blocks"},
+            {"name": "plainrun", "path": "/verif/harness/plainrun", "serves_properties": ["C01", "C03", "C05"],
+             "kind_free_text": "session runner over the public API only, built without and with the verif-hooks feature; generated sessions must behave identically in both builds (the verdicts reached with hooks on carry over to the library as users build it)"},
             {"name": "vsession", "path": "/verif/harness/vsession", "serves_properties": ["C16"],
              "kind_free_text": "session trace server built once per subset of {history, autocomplete, help}"},
         ],
